@@ -94,6 +94,60 @@ impl Mat {
         }
         h
     }
+    /// the same matrix built along another public construction path: 0 = single insertions (as
+    /// `to_sparse`), 1 = one bulk `insert_row` per row (the list in insertion order, its first index
+    /// repeated at the end: repeats are legal, every element is an idempotent insert), 2 = bulk
+    /// `insert_col`, 3 = `set_row`, 4 = `from_alist` of the own padded text, 5 = of the own unpadded text
+    pub fn to_sparse_by(&self, path: u8) -> SparseMatrix {
+        let mut by_row: Vec<Vec<usize>> = vec![Vec::new(); self.rows];
+        let mut by_col: Vec<Vec<usize>> = vec![Vec::new(); self.cols];
+        for &(r, c) in &self.ones {
+            by_row[r].push(c);
+            by_col[c].push(r);
+        }
+        let with_repeat = |l: &Vec<usize>| -> Vec<usize> {
+            let mut v = l.clone();
+            if let Some(&f) = l.first() {
+                v.push(f);
+            }
+            v
+        };
+        let built = match path % 6 {
+            1 => {
+                let mut h = SparseMatrix::new(self.rows, self.cols);
+                for (r, l) in by_row.iter().enumerate() {
+                    h.insert_row(r, with_repeat(l).iter());
+                }
+                h
+            }
+            2 => {
+                let mut h = SparseMatrix::new(self.rows, self.cols);
+                for (c, l) in by_col.iter().enumerate() {
+                    h.insert_col(c, with_repeat(l).iter());
+                }
+                h
+            }
+            3 => {
+                let mut h = SparseMatrix::new(self.rows, self.cols);
+                for (r, l) in by_row.iter().enumerate() {
+                    h.set_row(r, with_repeat(l).iter());
+                }
+                h
+            }
+            4 | 5 if self.rows > 0 && self.cols > 0 => SparseMatrix::from_alist(&own_alist(self, path % 6 == 4)).unwrap_or_else(|_| self.to_sparse()),
+            _ => return self.to_sparse(),
+        };
+        // whether these paths build the right set of ones is the business of the checks of the matrix
+        // type and of the parser (C17, C08); a consumer's check continues with the plainly built matrix
+        if built.num_rows() == self.rows && built.num_cols() == self.cols && built.iter_all().collect::<BTreeSet<_>>() == self.set() {
+            built
+        } else {
+            self.to_sparse()
+        }
+    }
+    pub fn construction_path_name(path: u8) -> &'static str {
+        ["single insertions", "bulk insert_row (with a repeated index)", "bulk insert_col (with a repeated index)", "set_row (with a repeated index)", "from_alist (padded text)", "from_alist (unpadded text)"][(path % 6) as usize]
+    }
     pub fn set(&self) -> BTreeSet<(usize, usize)> {
         self.ones.iter().copied().collect()
     }
@@ -972,4 +1026,28 @@ pub fn mat_from_bytes(data: &[u8], maxdim: usize, wide: bool) -> (Mat, u64) {
         salt = (salt ^ *x as u64).wrapping_mul(0x100_0000_01b3);
     }
     (m, salt)
+}
+
+
+/// an iterator adaptor that yields what the inner iterator yields but reports another (still
+/// truthful) size hint: 0 = the inner hint, 1 = (0, None), 2 = (0, Some(usize::MAX)), 3 = (0, inner
+/// upper bound). Iterators over filtered, chained or unbounded sources report such hints.
+pub struct Hinted<I> {
+    pub inner: I,
+    pub kind: u8,
+}
+
+impl<I: Iterator> Iterator for Hinted<I> {
+    type Item = I::Item;
+    fn next(&mut self) -> Option<I::Item> {
+        self.inner.next()
+    }
+    fn size_hint(&self) -> (usize, Option<usize>) {
+        match self.kind % 4 {
+            0 => self.inner.size_hint(),
+            1 => (0, None),
+            2 => (0, Some(usize::MAX)),
+            _ => (0, self.inner.size_hint().1),
+        }
+    }
 }
